@@ -142,6 +142,13 @@ func getOrCreateAndAppendField(c *[]CollectedField, name, alias string, objectDe
 				return &(*c)[i]
 			}
 
+			// a selection on an interface or union applies to every object the caller
+			// collects for, whatever type the other selection was made on (a union and one
+			// of its members, or two interfaces that do not implement each other)
+			if cf.ObjectDefinition.IsAbstractType() || objectDefinition.IsAbstractType() {
+				return &(*c)[i]
+			}
+
 			for _, ifc := range objectDefinition.Interfaces {
 				if ifc == cf.ObjectDefinition.Name {
 					return &(*c)[i]
